@@ -462,7 +462,7 @@ func allZero(b []byte) bool {
 	return true
 }
 
-// refNames: sequence of names (labels up to a zero byte), then zero padding.
+// refNames: sequence of names (labels up to a zero byte) up to the first empty name or the end of the area.
 func refNames(b []byte) (names []string, unclear, ok bool) {
 	if strings.Contains(string(b), "xn--") {
 		unclear = true
@@ -490,8 +490,12 @@ func refNames(b []byte) (names []string, unclear, ok bool) {
 			labels = append(labels, string(lab))
 			b = b[n:]
 		}
-		if len(labels) == 0 { // a zero byte followed by non-zero bytes: padding with garbage after it
-			return nil, true, false
+		if len(labels) == 0 {
+			// an empty name where a name would start, followed by non-zero bytes: RFC 8106 5.2 obliges the sender to pad
+			// with zeros and is silent about the receiver. The reference is the receiver that stops at the first empty
+			// name and does not look at what follows it (Spec/DnsslLenient.lean; Props/C14Dnssl dnssl_exact_lenient
+			// proves that the library's walk is that receiver) - formerly marked "unclear" and not compared
+			return names, unclear, true
 		}
 		names = append(names, strings.Join(labels, "."))
 	}
